@@ -95,6 +95,7 @@ var c01Snippets = []struct{ name, code string }{
 	{"struct-methods-and-aliases", "\tp1 := &P{x: a, name: \"n\"}\n\tp2 := p1\n\tp2.bump(b)\n\tp1.tags = append(p1.tags, \"t\")\n\tacc += p1.x + len(p2.tags)\n\tfmt.Println(\"p\", p1.x, p2.name, len(p2.tags), p1 == p2)\n"},
 	{"for-variants", "\tk := 0\n\tfor k < 3 {\n\t\tk++\n\t\tif k == 2 {\n\t\t\tcontinue\n\t\t}\n\t\tacc += k\n\t}\n\tfor {\n\t\tk--\n\t\tif k < 0 {\n\t\t\tbreak\n\t\t}\n\t}\n\tfmt.Println(\"k\", k)\n"},
 	{"sprintf", "\tfmt.Println(fmt.Sprintf(\"%d-%s-%v\", 7, \"s\", true), fmt.Sprint(a))\n"},
+	{"any-nil-compare", "\tvar x any = a\n\tvar y any\n\tvar z any = p\n\tvar w any = \"s\"\n\tvar e error\n\tif x == nil {\n\t\tacc += 1\n\t}\n\tif x != nil {\n\t\tacc += 2\n\t}\n\tif y == nil {\n\t\tacc += 4\n\t}\n\tif z != nil {\n\t\tacc += 8\n\t}\n\tif w != nil {\n\t\tacc += 16\n\t}\n\tif e == nil {\n\t\tacc += 32\n\t}\n\ty = f\n\tif y != nil {\n\t\tacc += 64\n\t}\n\tfmt.Println(\"any\", x, z, w)\n"},
 	{"float-conv", "\th := float64(a)/2 + 0.25\n\tfmt.Println(\"h\", h, int(math.Floor(h)), float64(c)*1.5)\n"},
 }
 
